@@ -95,6 +95,14 @@ func validateEncryptedDataLength(data []byte) error {
 // deriveDecryptionKey performs X25519 ECDH with the given private key and ephemeral
 // public key, then derives a symmetric key via HKDF-SHA256 for ChaCha20-Poly1305.
 func deriveDecryptionKey(privKey *x25519.PrivateKey, ephemeralPubBytes []byte) ([32]byte, error) {
+	// X25519 ignores bit 255 of the peer's u-coordinate and reduces values >= p,
+	// so several byte strings name the same ephemeral key and the AEAD tag (which
+	// does not cover the key bytes) cannot tell them apart. The encryptor only
+	// ever emits the canonical encoding; reject anything else so that every
+	// modified ciphertext byte is detected.
+	if !isCanonicalX25519(ephemeralPubBytes) {
+		return [32]byte{}, oops.Errorf("ephemeral public key is not a canonical X25519 encoding")
+	}
 	log.WithField("ephemeral_pub", ephemeralPubBytes).Debug("Extracted ephemeral public key")
 
 	sharedSecret, err := privKey.SharedKey(ephemeralPubBytes)
@@ -105,6 +113,23 @@ func deriveDecryptionKey(privKey *x25519.PrivateKey, ephemeralPubBytes []byte) (
 	log.Debug("Derived shared secret via X25519 ECDH")
 
 	return deriveSymmetricKey(sharedSecret)
+}
+
+// isCanonicalX25519 reports whether b is the canonical little-endian encoding
+// of a field element: 32 bytes, bit 255 clear, value below p = 2^255 - 19.
+func isCanonicalX25519(b []byte) bool {
+	if len(b) != x25519.PublicKeySize || b[31]&0x80 != 0 {
+		return false
+	}
+	if b[31] != 0x7f {
+		return true
+	}
+	for i := 30; i >= 1; i-- {
+		if b[i] != 0xff {
+			return true
+		}
+	}
+	return b[0] < 0xed
 }
 
 // deriveSymmetricKey derives a ChaCha20-Poly1305 symmetric key from a shared secret
